@@ -64,8 +64,8 @@ chk("C07",
     "exhaustive exploration of hash-order environments x recipes, all canon-equal pairs",
     "5/C07")
 chk("C08",
-    "Explicit-state search (stateright BFS, run twice, counts compared) over the real reused ParseState: state = what mid_result still holds after an input, transition = one real parse_multi loop body (hook MultiParser::step) over a 26-input alphabet per format (complete/partial/failing inputs), to a fixpoint; every transition compared with a fresh parse; every explored history replayed through the public parse_multi (traces_validated_against_impl); hook-free sweep of all sequences of length<=2 (3); parse_chars vs parse; lexical parse sequences on the shared static formats.",
-    "Merging on mid_result is sound because reset_to overwrites env/len_env/head and format is constant; alphabet of 26 inputs per format.",
+    "Explicit-state search (stateright BFS, run twice, counts compared) over the real reused ParseState: state = every field of the reused ParseState except the constant format (mid_result, character buffer, recorded length, cursor), transition = one real parse_multi loop body (hook MultiParser::step) over a 26-input alphabet per format (complete/partial/failing inputs), to a fixpoint; every transition compared with a fresh parse; every explored history replayed through the public parse_multi (traces_validated_against_impl); hook-free sweep of all sequences of length<=2 (3); parse_chars vs parse; lexical parse sequences on the shared static formats.",
+    "States are merged on all fields of the real ParseState (hook buffer_view + residue), so no assumption about reset_to is needed; alphabet of 31 (43 thorough) inputs per format.",
     "explicit-state model checking (stateright BFS to fixpoint) of the real parser object + replay of all explored traces against the public API",
     "5/C08")
 chk("C09",
@@ -103,7 +103,7 @@ manifest = {
     "guard": "cargo feature verif_hooks (off by default)",
     "enable": "the harness crate depends on narsese = { path = \"/repo\", features = [\"verif_hooks\"] }",
     "baseline_off_cmd": "cd /repo && cargo test --workspace --no-fail-fast --offline",
-    "source_commits": ["36ade45"],
+    "source_commits": ["36ade45", "031585a"],
     "add_only": True
   },
   "engines": [
